@@ -9,7 +9,7 @@ import e2
 import enums
 from common import MachineryError, Result, log
 from e3 import Config, Subj
-from e3check import compare_transcripts, explore
+from e3check import compare_transcripts, decl_key, explore
 from enums import REPRS, family_F, make_decl
 
 SIZE_GUESS = {"i8": 1, "u8": 1, "i16": 2, "u16": 2, "i32": 4, "u32": 4, "isize": 4, "usize": 4,
@@ -156,7 +156,7 @@ def c09(tier):
     merged = explore(res, "%s/c09" % tier, subs)
     # pairwise equality between configurations, independent of the reference model
     by = {s.sid: s for s in subs}
-    compare_transcripts(res, merged, subs, lambda s: s.sid.split("_")[0], "configuration-dependent-behaviour")
+    compare_transcripts(res, merged, subs, decl_key, "configuration-dependent-behaviour")
     res.family = {"cover_decls": len(decls), "direct_decls": len(direct_decls)}
     res.bounds = {"e1_onoff_thinning": "<=2 or >=11 of the 12 on/off features" if tier == "quick" else "none (all 4.7M configurations)",
                   "direct_k": kmax, "iter_bounds": bounds}
